@@ -779,4 +779,71 @@ theorem setPropsNT_eq_setProps (nid : Nid) (k v : String) (hk : k ≠ "Name") (h
   · simp [h, applyKw, dictUpdate, hk, ht]
   · simp [h]
 
+/-! ### Topology-level services against ALL services (owned ones, whose names the library derives, included)
+
+`Topology.network_services` is keyed by name over every service and `remove_network_service(name)` looks the name up over
+every service, so a topology-level service must not share its name with any other service.  The code guards one direction. -/
+
+/-- the names of ALL network services of the model, owned or not -/
+def svcNamesAll (s : Topo) : List String := (s.nodes.filter (fun n => n.cls == .networkService)).map (·.name)
+
+/-- a topology-level service has a name no OTHER service of the model carries -/
+def TopSvcWide (s : Topo) : Prop :=
+  ∀ n ∈ s.nodes, n.cls = .networkService → hasParent s n.ref = false →
+    ∀ m ∈ s.nodes, m.cls = .networkService → m.ref ≠ n.ref → m.name ≠ n.name
+
+instance (s : Topo) : Decidable (TopSvcWide s) := by unfold TopSvcWide; infer_instance
+
+/-- the guarded direction, for every state and every argument list: a topology-level service creation that returns was given
+a name that NO service of the model carried - not a topology-level one, not one owned by a node or a component
+(`check_node_unique` over the whole class in `add_network_service_sliver`) -/
+theorem svcNew_top_name_unused (fl : Flavour) (c : Nat) (a : SvcArgs) (s s' : Topo) (r : Nid × Cache)
+    (hok : svcNew fl c none a s = (.ok r, s')) : a.name ∉ svcNamesAll s := by
+  unfold svcNew at hok
+  rcases hp : pick a.nid c with ⟨id, c1⟩
+  rw [hp] at hok
+  simp only [] at hok
+  obtain ⟨t, _, hok⟩ := ro_ok_inv (readOnly_need _ _) hok
+  obtain ⟨_, _, hok⟩ := ro_ok_inv (readOnly_guard _ _) hok
+  obtain ⟨layer, _, hok⟩ := ro_ok_inv (readOnly_need _ _) hok
+  obtain ⟨kw, _, hok⟩ := ro_ok_inv (readOnly_ofExcept _) hok
+  simp only [Option.isNone, if_true] at hok
+  obtain ⟨dup, hdup, hok⟩ := ro_ok_inv (readOnly_read _) hok
+  obtain ⟨_, hg, hok⟩ := ro_ok_inv (readOnly_guard _ _) hok
+  have hd : dup = false := by simpa using guard_ok hg
+  simp only [read_apply, Prod.mk.injEq, Except.ok.injEq, and_true] at hdup
+  rw [hd] at hdup
+  intro hmem
+  simp only [svcNamesAll, List.mem_map, List.mem_filter] at hmem
+  obtain ⟨m, ⟨hm, hmc⟩, hmn⟩ := hmem
+  have := List.any_eq_false.mp hdup m hm
+  simp [hmn] at this
+  simp [this] at hmc
+
+/-- `Topology.add_network_service` -/
+theorem addService_name_unused (fl : Flavour) (c : Nat) (a : SvcArgs) (s s' : Topo) (r : Nid × Cache)
+    (hok : addService fl c a s = (.ok r, s')) : a.name ∉ svcNamesAll s :=
+  svcNew_top_name_unused fl c a s s' r hok
+
+/-- `ExperimentTopology.add_port_mirror_service` -/
+theorem addPortMirror_name_unused (fl : Flavour) (c : Nat) (a : SvcArgs) (toOk fromOk : Bool) (s s' : Topo) (r : Nid × Cache)
+    (hok : addPortMirror fl c a toOk fromOk s = (.ok r, s')) : a.name ∉ svcNamesAll s := by
+  unfold addPortMirror at hok
+  obtain ⟨_, _, hok⟩ := ro_ok_inv (readOnly_guard _ _) hok
+  obtain ⟨_, _, hok⟩ := ro_ok_inv (readOnly_guard _ _) hok
+  exact svcNew_top_name_unused fl c a s s' r hok
+
+/-- non-vacuity: the call returns on a state that holds a service -/
+example : ∃ r s', addService .experiment 0 ⟨"s2", none, some "L2Bridge", none, none, [], []⟩ w1 = (.ok r, s') := ⟨_, _, rfl⟩
+
+def w6 : Topo := ⟨[⟨.networkNode, .user "a", "n1", "VM", []⟩, ⟨.networkService, .user "t", "nsa", "L2Bridge", []⟩], []⟩
+
+/-- known finding `C07:names-unique:NetworkService-topology-wide:node_add_service` (and `add_switch` / `add_facility` /
+`add_component`, which reach the same constructor with a derived name): the other direction is not guarded - full statement
+`TopSvcWide s → TopSvcWide (nodeAddService … s).2` fails -/
+theorem nodeAddService_topwide_counterexample :
+    Inv w6 ∧ TopSvcWide w6 ∧ "nsa" ∈ svcNamesAll w6 ∧
+    (nodeAddService .experiment 0 (.user "a") ⟨"nsa", none, some "OVS", none, none, [], []⟩ w6).1.toBool = true ∧
+    ¬ TopSvcWide (nodeAddService .experiment 0 (.user "a") ⟨"nsa", none, some "OVS", none, none, [], []⟩ w6).2 := by decide
+
 end FimVerif.C07
